@@ -133,7 +133,7 @@ func init() {
 func init() {
 	properties["C11"] = &Property{
 		Title:       "OSAP emits a minimum-cost parse (structural necessary conditions)",
-		Rules:       []string{"R-DP-LIT", "R-DP-MATCH", "R-DP-BACK", "R-COSTTABLE", "R-EDGE-NEAREST", "R-SEGCALL", "R-OSAP-INDEX", "R-OSAP-RANGE", "R-RESET-COVER", "R-INVALIDATE", "R-SEG-LEFT", "R-SEG-ORDER", "R-SEG-SCAN", "R-SEG-BOUNDS", "R-SEG-PRE"},
+		Rules:       []string{"R-DP-LIT", "R-DP-MATCH", "R-DP-BACK", "R-COSTTABLE", "R-EDGE-NEAREST", "R-SEGCALL", "R-OSAP-FASTPATH", "R-OSAP-INDEX", "R-OSAP-RANGE", "R-RESET-COVER", "R-INVALIDATE", "R-SEG-LEFT", "R-SEG-ORDER", "R-SEG-SCAN", "R-SEG-BOUNDS", "R-SEG-PRE"},
 		Decided:     "the dynamic program relaxes the literal step from every position and every (edge, length) pair up to min(edge.m, n−i) with the priced (m, o) stored, backtracks by the stored lengths from n to 0; the cost table of Verify and init agree and one cost function prices both step kinds; the edge builder sorts each group, pairs every occurrence with its predecessor, leaves early only monotonically and drops a pair only for window / dominance reasons; Segments is called with MinMatchLen and a MaxMatchLen-clamped maximum on tables of one text; the interval scan behind it is complete (C10 rules).",
 		NotDecided:  "optimality itself (a statement about all alternative parses); the cost model against XZ; completeness of the edges as a fact about texts (C09, C10).",
 		Assumptions: []string{"suffix.Sort/LCP are correct (C09)", "cost(a,0) is additive in a (XZCost: 9 bits per literal), so initialising d[i] with cost(i,0) agrees with unit literal steps"},
@@ -153,7 +153,7 @@ func init() {
 func init() {
 	properties["C09"] = &Property{
 		Title:       "suffix.Sort / LCP / InvertSA (narrow structural clauses)",
-		Rules:       []string{"R-TEXT-RO", "R-LCP-INPUTS", "R-KASAI", "R-INVERT", "R-SORT-SHORT", "R-PREFIX-STOP", "R-PREFIX-COVER", "R-PREFIX-BOUND", "R-PREFIX-ALIGN"},
+		Rules:       []string{"R-TEXT-RO", "R-LCP-INPUTS", "R-KASAI", "R-INVERT", "R-SORT-SHORT", "R-PREFIX-STOP", "R-PREFIX-COVER", "R-PREFIX-BOUND", "R-PREFIX-ALIGN", "R-SIBLING-PARAMS"},
 		Decided:     "package suffix never writes a byte slice (the text is not modified); LCP reaches its core only with consistent lengths and with a supplied or freshly computed sa / sainv of the same text; the LCP core has the shape of the Kasai/phi recurrence including lcp[0] = 0; InvertSA stores sainv[sa[j]] = j for all j.",
 		NotDecided:  "that Sort produces the suffix array (B*-substring sort, tandem-repeat sort, induced sorting: ssort.go, trsort.go, k1.go) and its independence of the previous contents of sa — a value property of a 1,600-line in-place algorithm with sign-bit markers; no sound static argument is in reach and none is claimed. Defects inside the sorters (e.g. seeded C09-1, C09-2) are NOT detected by this check.",
 		Assumptions: []string{"matchLen returns the exact common prefix length of its arguments"},
